@@ -13,7 +13,6 @@ package main
 
 import (
 	"bytes"
-	"context"
 	"crypto/ecdsa"
 	"crypto/elliptic"
 	"crypto/rand"
@@ -41,7 +40,6 @@ import (
 	"filippo.io/keygen"
 	"filippo.io/sunlight"
 	"filippo.io/sunlight/internal/immutable"
-	"filippo.io/torchwood"
 	"golang.org/x/mod/sumdb/note"
 	"verif.local/vfref"
 )
@@ -571,98 +569,6 @@ type c18RunResult struct {
 }
 
 var c18Discard = slog.New(slog.DiscardHandler)
-
-// c18RunInProc is main() of partial-aftersun without flag parsing, logging and
-// os.Exit: the same sequence of logSize / mirroredLogSize / cleanDir calls
-// with the same stop-on-error behaviour.
-func c18RunInProc(tg c18Target) (res c18RunResult) {
-	res.Mode = "inproc"
-	defer func() {
-		if p := recover(); p != nil {
-			res.Failed = true
-			res.Detail = fmt.Sprintf("panic: %v", p)
-		}
-	}()
-	ctx := context.Background()
-	logger := c18Discard
-	fail := func(format string, a ...any) {
-		res.Failed = true
-		if res.Detail == "" {
-			res.Detail = fmt.Sprintf(format, a...)
-		}
-	}
-	for _, dir := range tg.LogDirs {
-		root, err := os.OpenRoot(dir)
-		if err != nil {
-			fail("fatal: open root: %v", err)
-			return
-		}
-		defer root.Close()
-		size, err := logSize(root)
-		if err != nil {
-			fail("fatal: log size: %v", err)
-			return
-		}
-		levels, err := fs.ReadDir(root.FS(), "tile")
-		if os.IsNotExist(err) {
-			continue
-		}
-		if err != nil {
-			fail("fatal: read tile dir: %v", err)
-			return
-		}
-		for _, level := range levels {
-			name := filepath.Join("tile", level.Name())
-			if err := cleanDir(ctx, logger, root, name, size, sunlight.ParseTilePath); err != nil {
-				fail("cleanDir %s: %v", name, err)
-				break
-			}
-		}
-	}
-	if tg.WitnessDir != "" {
-		dir, err := os.ReadDir(filepath.Join(tg.WitnessDir, "mirror"))
-		if os.IsNotExist(err) {
-		} else if err != nil {
-			fail("fatal: read mirror dir: %v", err)
-			return
-		}
-		for _, entry := range dir {
-			if !entry.IsDir() {
-				continue
-			}
-			root, err := os.OpenRoot(filepath.Join(tg.WitnessDir, "mirror", entry.Name()))
-			if err != nil {
-				fail("open mirror root: %v", err)
-				continue
-			}
-			defer root.Close()
-			size, err := mirroredLogSize(root, entry.Name())
-			if errors.Is(err, fs.ErrNotExist) {
-				continue
-			}
-			if err != nil {
-				fail("mirrored log size: %v", err)
-				continue
-			}
-			levels, err := fs.ReadDir(root.FS(), "tile")
-			if os.IsNotExist(err) {
-				continue
-			}
-			if err != nil {
-				fail("read mirror tile dir: %v", err)
-				continue
-			}
-			for _, level := range levels {
-				name := filepath.Join("tile", level.Name())
-				if err := cleanDir(ctx, logger, root, name, size, torchwood.ParseTilePath); err != nil {
-					fail("cleanDir mirror %s: %v", name, err)
-					break
-				}
-			}
-		}
-	}
-	return res
-}
 
 var c18BinOnce sync.Once
 var c18BinPath string
